@@ -24,4 +24,16 @@ def isEmptyOps : List SrcOp :=
 def isFullOps : List SrcOp :=
   [.loadTail, .loadHead]
 
+/-- control shape of `PushWait`: tests and returns in source order -/
+def pushWaitShape : List String :=
+  ["if neg [", "loop [", "if attempt [", "ret true", "]", "gosched", "]", "]", "if attempt [", "ret true", "]", "if zero [", "ret false", "]", "loop [", "tick", "if attempt [", "ret true", "]", "if deadline [", "ret false", "]", "]"]
+
+/-- control shape of `PopWait`: tests and returns in source order -/
+def popWaitShape : List String :=
+  ["if neg [", "loop [", "if attempt [", "ret true", "]", "gosched", "]", "]", "if attempt [", "ret true", "]", "if zero [", "ret false", "]", "loop [", "tick", "if attempt [", "ret true", "]", "if deadline [", "ret false", "]", "]"]
+
+/-- every assignment to `r.values` in `Init` (nesting depth:right-hand side) -/
+def initValues : List String :=
+  ["0:make"]
+
 end Golib.Gen.C01
